@@ -118,6 +118,15 @@ func encodeRole(sys sysSpec, a int, p []gate2.Section) string {
 	return b.String()
 }
 
+// sharedOnly: three archetypes that communicate only through shared variables bound without any wrapper: a
+// function-valued LocalShared variable tbl (whole and indexed access) and an IncMap m of LocalShared elements.
+func sharedOnly() sysSpec {
+	return sysSpec{NArch: 3, Res: []resSpec{
+		{Name: "tbl", Kind: "sharedfn", Users: []int{0, 1, 2}},
+		{Name: "m", Kind: "sharedmap", Users: []int{0, 1, 2}},
+	}}
+}
+
 func ring(kind string, shared bool) sysSpec {
 	s := sysSpec{NArch: 3, Res: []resSpec{
 		{Name: "l0", Kind: kind, Users: []int{0, 1}},
@@ -184,9 +193,9 @@ func schedulable(cs caseSpec) bool {
 
 func families(thorough bool) []family {
 	singles := singleConfigs()
-	sTotal, mTotal, tTotal := 3, 4, 4
+	sTotal, mTotal, tTotal, shTotal := 3, 4, 4, 3
 	if thorough {
-		sTotal, mTotal, tTotal = 4, 5, 5
+		sTotal, mTotal, tTotal, shTotal = 4, 5, 5, 4
 	}
 	drawSingle := func(total int) func(c *explore.Ctx) caseSpec {
 		return func(c *explore.Ctx) caseSpec {
@@ -207,6 +216,16 @@ func families(thorough bool) []family {
 					continue
 				}
 				m := menuOf(sys, a)
+				if sys.Res[0].Kind == "sharedfn" && !thorough {
+					// quick: element 2 is only written by whole-variable writes
+					var m2 []gate2.Op
+					for _, o := range m {
+						if o.I == nil || *o.I != 2 {
+							m2 = append(m2, o)
+						}
+					}
+					m = m2
+				}
 				if !relay {
 					var m2 []gate2.Op
 					for _, o := range m {
@@ -236,6 +255,8 @@ func families(thorough bool) []family {
 			Describe: fmt.Sprintf("one archetype over 1-2 of {local, indexed local, ref-bound local, IncMap of locals, HashMap of locals}; programs of 1-2 sections, <=3 operations each, <=%d in all; one failing attempt anywhere (await false before operation k | k-th resource operation refused | pre-commit refused)", sTotal)},
 		{Name: "ring-chan-shared", Draw: drawRing(ring("chan", true), mTotal, thorough),
 			Describe: fmt.Sprintf("three archetypes A->B->C->A linked by OutputChan/InputChan pairs plus one LocalShared variable used by all; per archetype 0-2 sections of 1-2 operations from {send, relay the value just read, receive, read x, write x}, <=%d operations in all; (relay only in the thorough tier); programs identical up to rotation of the ring are run once; every section-level interleaving; one aborted attempt (await false) at every position", mTotal)},
+		{Name: "shared-indexed", Draw: drawRing(sharedOnly(), shTotal, true),
+			Describe: fmt.Sprintf("three archetypes sharing, bound WITHOUT Logging/Faulty wrappers (the runtime sees the real resource types), a function-valued LocalShared variable tbl and an IncMap m whose elements are LocalShared variables; per archetype 0-2 sections of 1-2 operations from {read tbl[1], write tbl[1], read tbl, write tbl (a new function), read m[1], write m[1]; thorough also write tbl[2], write m[2]}, <=%d operations in all; programs identical up to rotation run once; every section-level interleaving; one aborted attempt at every position; reads of shared variables are also replayed from all logs in commit order", shTotal)},
 		{Name: "ring-tcp", Draw: drawRing(ring("tcp", false), tTotal, true),
 			Describe: fmt.Sprintf("three archetypes A->B->C->A linked by TCP mailboxes on loopback; per archetype 0-2 sections of 1-2 operations from {send, relay, receive}, <=%d operations in all; every section-level interleaving; one aborted attempt at every position", tTotal)},
 		{Name: "file-single", Draw: drawSingle(2), Faulty: true, File: true,
